@@ -36,6 +36,8 @@ func runC12(c *Check, tier string) {
 	// the dependency lists the closure follows are the declared ones: nobody writes through them
 	ruleAdjacencyNotAliased(c, "R12l")
 	ruleTagSidesTreatedAlike(c, "R12m")
+	// round 7: what matches a pattern is decided by the pattern's own matcher
+	rulePatternsDecidedByMatcher(c, "R12o")
 }
 
 // R12f: the platform predicate is exact membership.
